@@ -246,7 +246,7 @@ int main(int argc, char** argv) {
   return bad != 0;
 }
 
-/* COVERAGE / RESULTS (library as in /tmp/seed/P16, g++ 12.2, Boost 1.83)
+/* COVERAGE / RESULTS (library as in /repo, g++ 12.2, Boost 1.83)
 
    What one case does: 2..8 vertex slots (5..8 in mode 3) with labels that are 0..N-1, random in [0,50), random 64-bit
    values, or within 20 of SIZE_MAX (SIZE_MAX included); a Toplex_map and a Lazy_toplex_map receive the same history of
